@@ -30,7 +30,11 @@ def mutants():
         tier_needed = None
         try:
             meta = json.load(open(m))
-            props = meta.get("caught_by") or [meta.get("property")]
+            props = meta.get("caught_by")
+            if props is None:
+                props = [meta.get("property")]
+            if props == []:
+                continue        # recorded as not caught (see the note in meta.json and DESIGN 7.5)
             tier_needed = meta.get("tier_needed")
         except Exception:
             pass
